@@ -109,14 +109,17 @@ func (l *maximumImpl) Lock(model Model) error {
 	}
 
 	planUnits := model.PlanStopsUnits()
+	// both tables are indexed by ModelPlanUnit.Index(), which counts plan units of
+	// every kind (units of units included), not only plan units of stops
+	nrPlanUnits := len(model.PlanUnits())
 
-	l.hasNoEffect = make([]bool, len(planUnits))
+	l.hasNoEffect = make([]bool, nrPlanUnits)
 
 	if !l.hasStopExpressionAndNoNegativeValues {
 		return nil
 	}
 
-	l.deltas = make([]float64, len(planUnits))
+	l.deltas = make([]float64, nrPlanUnits)
 
 	for _, planUnit := range planUnits {
 		delta := 0.0
